@@ -10,6 +10,9 @@ ids = [p["id"] for p in props]
 reg = json.loads(subprocess.check_output([os.path.join(here, "bin/calint"), "-list"]))
 claimed = {r["id"]: r for r in reg}
 na = json.load(open(os.path.join(here, "not_applicable.json")))
+if "--prune" in sys.argv:  # drop entries for properties that now have a registered check
+    na = [e for e in na if e["property_id"] not in claimed]
+    json.dump(na, open(os.path.join(here, "not_applicable.json"), "w"), indent=1)
 na_ids = {e["property_id"] for e in na}
 
 checks = []
